@@ -113,6 +113,7 @@ def gen_module(rng, n, names, ctx_choice, penv, pc, pu, focus):
         if pick(rng, 0.8):
             srcs = [n + ".c"] + (["x%d.c" % rng.randint(0, 2)] if pick(rng, 0.3) else []) + ([n + ".S"] if pick(rng, 0.1) else []) + ([n + "_l.s"] if pick(rng, 0.05) else [])
             if pick(rng, 0.06): srcs.append(n + rng.choice([" with blank.c", ":colon.c", " two  blanks.c", "$ dollar blank.c"]))   # names ninja would split
+            if pick(rng, 0.04): srcs.append(srcs[0])         # a source listed twice stays listed twice, in place
             if pick(rng, 0.6 if MULTIKEY else 0.25):
                 d = {}
                 for _k in range(rng.randint(2, 3) if MULTIKEY else 1):
